@@ -25,7 +25,7 @@ Core Lean only.
 -/
 namespace LC.Spec.FootprintExpect
 
-def reachable : List String := ["Classifier.detectRuns", "Classifier.findPotentialMatches", "Classifier.fuseRanges", "Classifier.getMatchedRanges", "Classifier.match", "Classifier.score", "LicenseName", "TraceConfiguration.isTraceLicense", "TraceConfiguration.shouldTrace", "TraceConfiguration.trace", "TraceConfiguration.traceScoring", "TraceConfiguration.traceSearchset", "TraceConfiguration.traceTokenize", "appendToDoc", "between", "cleanupToken", "confidencePercentage", "contains", "detectionType", "dictionary.add", "dictionary.getIndex", "dictionary.getWord", "diffLevenshteinWord", "diffRange", "diffRunesToWords", "diffWordsToRunes", "docDiff", "flushBuf", "frequencyTable.update", "generateHashes", "hash.add", "header", "indexedDocument.generateFrequencies", "indexedDocument.generateSearchSet", "indexedDocument.normalized", "indexedDocument.size", "indexedDocument.tokenSimilarity", "isVersionNumber", "matchRange.String", "matchRange.in", "max", "newDictionary", "newFrequencyTable", "newSearchSet", "node.String", "normalizeToken", "overlaps", "scoreDiffs", "searchSet.generateNodeList", "stringifyLineBuf", "targetMatchedRanges", "textLength", "tokenRange.String", "tokenizeStream", "variantName", "wordLen"]
+def reachable : List String := ["Classifier.detectRuns", "Classifier.findPotentialMatches", "Classifier.fuseRanges", "Classifier.getMatchedRanges", "Classifier.match", "Classifier.score", "LicenseName", "TraceConfiguration.isTraceLicense", "TraceConfiguration.shouldTrace", "TraceConfiguration.trace", "TraceConfiguration.traceScoring", "TraceConfiguration.traceSearchset", "TraceConfiguration.traceTokenize", "appendToDoc", "between", "cleanupToken", "confidencePercentage", "contains", "detectionType", "dictionary.add", "dictionary.getIndex", "dictionary.getWord", "diffLevenshteinWord", "diffRange", "diffRunesToWords", "diffWordsToRunes", "docDiff", "flushBuf", "frequencyTable.update", "generateHashes", "hash.add", "header", "indexedDocument.generateFrequencies", "indexedDocument.generateSearchSet", "indexedDocument.normalized", "indexedDocument.size", "indexedDocument.tokenSimilarity", "isVersionNumber", "matchRange.String", "matchRange.in", "max", "newDictionary", "newFrequencyTable", "newSearchSet", "node.String", "normalizeToken", "overlaps", "runeToken", "scoreDiffs", "searchSet.generateNodeList", "stringifyLineBuf", "targetMatchedRanges", "textLength", "tokenRange.String", "tokenRune", "tokenizeStream", "variantName", "wordLen"]
 
 def writes : List (String × String) := [("appendToDoc", "indexedDocument.Matches"), ("appendToDoc", "indexedDocument.Tokens"), ("dictionary.add", "dictionary.indices"), ("dictionary.add", "dictionary.words"), ("frequencyTable.update", "frequencyTable.counts"), ("indexedDocument.generateFrequencies", "indexedDocument.f"), ("indexedDocument.generateSearchSet", "indexedDocument.s"), ("searchSet.generateNodeList", "searchSet.nodes")]
 
